@@ -5,7 +5,11 @@ recorded).  P2 (a) callback level: the C04 case enumeration on the real Executio
 every callback, raising or not, the flag is restored and a following line visit is recorded;
 (b) test-case level: TLC enumerates statement sequences (MC_TracerProg) in which traced code raises
 in 12 different ways and the SUT catches it (or not); they run on the real TestCaseExecutor and
-TracerProgTrace.tla is evaluated on the observed flags and coverage.
+TracerProgTrace.tla is evaluated on the observed flags and coverage;
+(c) idiom corpus (exceptions raised by comparisons, truthiness, membership, iteration, hashing,
+properties, __getattr__ hooks, generators, with, except*, ... and caught inside the subject) under
+BRANCH+LINE and BRANCH+LINE+CHECKED: lines and branch outcomes reported per execution equal the
+interpreter's (sys.monitoring), the tracer is enabled afterwards (IdiomTrace.tla).
 """
 
 from __future__ import annotations
@@ -13,7 +17,7 @@ from __future__ import annotations
 import logging
 
 from harness.core import Ctx, parallel_map
-from harness.props import C04
+from harness.props import C04, _idioms
 
 CALLBACK_CLAUSES = {"EnabledRestored", "StillRecording"}
 
@@ -32,6 +36,7 @@ def run(ctx: Ctx) -> None:
     ctx.assumptions = ["enabled flag read in the executing thread at statement boundaries by wrapping the "
                        "executor's before/after statement hooks at run time",
                        "lines after the try/except of a statement are executed unconditionally by construction"]
+    n_idiom = _idioms.run(ctx, "C05")  # (c), first: the children are forked from a still small process
     # (a) callback level, shares the C04 machinery (Tracer design model is checked there too)
     C04.run_clauses(ctx, CALLBACK_CLAUSES, "C05")
     r = ctx.design("Tracer", "Tracer_asis.cfg", expect_ok=False)
@@ -46,7 +51,7 @@ def run(ctx: Ctx) -> None:
         ctx.exhaustive = False
     jobs = [(p, str(ctx.work / "prog" / f"w{n % 32}"), f"{ctx.seed}x{n}") for n, p in enumerate(progs)]
     results = parallel_map(_run, jobs, procs=8, chunksize=8)
-    ctx.evaluations = n_cb + len(results)
+    ctx.evaluations = n_cb + len(results) + n_idiom
     for p in progs:
         if any(s["k"] != "none" for s in p["prog"]):
             ctx.nontriv(("prog", str(p["prog"])))
@@ -64,6 +69,8 @@ def run(ctx: Ctx) -> None:
 
 def replay(ctx: Ctx, rec: dict) -> int:
     beh = rec["behaviour"]
+    if "idiom" in beh:
+        return _idioms.replay(ctx, rec, "C05")
     if "prog" in beh:
         r = _run((beh, str(ctx.work / "prog"), "replay"))
         print(r)
